@@ -11,13 +11,16 @@ serial uniqueness, poolserial order, per-pool FIFO order of first deliveries, re
 listener isolation.  "Subscribed" is decided from the documented type hierarchy (docs/events.rst, "*Subtype Of*";
 sites/events.py `documented_hierarchy`), never from issubclass(): the classes are what is being checked.
 """
-from props.listener_world import World, hexs, parse_stdin, DocTypes, exec_op
+from props.listener_world import World, hexs, parse_stdin, DocTypes, exec_op, pools_spec
 
 ID = 'C09'
 LEAN_PROPS = 'SupervisorModel.Props.C09'
 DRIVER = 'drv_c09'
 GENERATED = ['Listener', 'Events', 'Pool']
 TRUSTED = [
+    "pools removed and added at run time are slots of the model world: a pool that is added again (supervisorctl update) is a new slot, possibly of the same name; "
+    "the history theorems assume pairwise distinct names over all slots, same-name re-additions are covered by the correspondence runs and the monitors",
+    "callbacks.remove((type, callback)) raising ValueError for a pair that is not subscribed is outside the model (a pool is unsubscribed once, by before_remove)",
     "docs/events.rst of the tree under verification is the reference for the event type hierarchy (its \"*Subtype Of*\" lines; parsed by harness/sites/events.py)",
     "event payloads are ASCII in this check (the len: header of non-ASCII payloads is C11 / finding F2)",
     "the listeners' own Subprocess.transition() (start/stop policy) is outside the Pool model; their process state is set by the harness",
@@ -26,7 +29,10 @@ TRUSTED = [
 ]
 ASSUMPTIONS = ["pool names are pairwise distinct (section names of the configuration file) and every listener is its own Subprocess object",
                "a closed anonymous pipe never gets a reader again (EPIPE is sticky)"]
-RULE = ("cases = 1-3 pools with overlapping/disjoint subscriptions (concrete types, abstract supertypes, a type together "
+RULE = ("pools leave and join at run time (the real Supervisor.remove_process_group / add_process_group: removals with a live "
+        "listener -- refused -- and after a stop; additions of new pools and of pools under the name of a removed one) while the "
+        "other pools keep receiving events of shared types and keep rejecting; "
+        "cases = 1-3 pools with overlapping/disjoint subscriptions (concrete types, abstract supertypes, a type together "
         "with its supertype, siblings; hand-picked sets and sets drawn from the whole documented type table), 1-3 listeners each "
         "(names unique or shared across pools), buffer sizes 1-5; op lists of notify (every documented concrete type) / listener "
         "READY, OK, FAIL, garbage, fragmented answers (cut between result header and body or anywhere, with a death, a pool pass or "
@@ -51,8 +57,12 @@ def subscribed(types, clsname):
 
 class Run:
     def __init__(self, ctx, handler, pools, script, names='unique'):
-        self.ctx, self.handler, self.pools = ctx, handler, pools
-        self.w = World(pools, handler=handler, names=names)
+        # pools: one slot per configured pool, (name, buffer_size, listeners, types[, 'absent']); see listener_world.World
+        self.ctx, self.handler, self.spec = ctx, handler, pools
+        self.pools = pools = [tuple(p[:4]) for p in pools]
+        self.w = World(self.spec, handler=handler, names=names)
+        # which pools are in the daemon, kept from the answers of the remove / add calls (not read off the objects)
+        self.live = [not (len(p) > 4 and p[4] == 'absent') for p in self.spec]
         self.ops, self.lines = [], []
         self.viol = []
         self.accepted = [dict() for _ in pools]      # pool -> {evid: count of notify matches (must be offered once)}
@@ -70,6 +80,8 @@ class Run:
 
     def pool_view(self, qi):
         pool = self.w.pools[qi]
+        if pool is None:
+            return (None, None)
         buf = getattr(pool, 'event_buffer', None)
         return (tuple(self.w.evids.get(id(e)) for e in buf) if buf is not None else None, getattr(pool, 'serial', None))
 
@@ -83,12 +95,30 @@ class Run:
         op, outs, err = exec_op(w, self.pools, op)
         if op is None:
             return
-        # every event emitted during this operation: which pools must be offered it (by its class alone)
+        t = op.split()
+        # pools removed / added: the call's own answer decides whether the pool is in the daemon from now on.  The
+        # PROCESS_GROUP event of the call is emitted after the table changed: a pool that was just added (and subscribed)
+        # is offered its own PROCESS_GROUP_ADDED, a pool that was just removed is not offered its PROCESS_GROUP_REMOVED
+        if t[0] in ('remove', 'add'):
+            self.group_call(op, t, outs, ev0)
+        # every event emitted during this operation: which pools must be offered it (by its class alone): the pools
+        # that are in the daemon and subscribed to its type or one of its documented supertypes
         for evid in range(ev0, w.next_ev):
             cname = w.events.getEventNameByType(type(w.evobjs[evid]))
             for qi, (name, bs, nl, types) in enumerate(self.pools):
-                if cname is not None and subscribed(types, cname):
+                if cname is not None and self.live[qi] and subscribed(types, cname):
                     self.accepted[qi][evid] = 1
+                    # observable at once: an accepted event carries the pool's poolserial (the header's poolserial:)
+                    if name not in (getattr(w.evobjs[evid], 'pool_serials', None) or {}):
+                        self.viol.append(('event-not-offered-to-subscribed-pool',
+                                          'pool %s (events=%s, in the daemon) was not offered event %d (%s) emitted during %r' % (
+                                              name, ','.join(types), evid, cname, op)))
+            # ... and no pool that is not in the daemon (removed, or not added yet) takes it
+            for pname in (getattr(w.evobjs[evid], 'pool_serials', None) or {}):
+                if not any(self.live[qi] and p[0] == pname for qi, p in enumerate(self.pools)):
+                    self.viol.append(('event-offered-to-pool-not-in-daemon',
+                                      'event %d (%s) emitted during %r was accepted by pool %s, which is not in supervisord.process_groups' % (
+                                          evid, cname, op, pname)))
         self.ops.append(op)
         self.lines.append('%s | %s' % (';'.join(outs) if outs else '-', err))
         self.ctx.count('op:' + t[0])
@@ -110,7 +140,7 @@ class Run:
                 ps = getattr(held, 'pool_serials', {}).get(self.pools[qi][0])
                 if ps is not None:
                     self.first_sent[qi].append(ps)
-            if f[0] == 'h' and f[3] == '4f4b' and f[2] != '-':
+            if f[0] == 'h' and f[3] == '4f4b' and f[2].isdigit():
                 pi = int(f[1].split('.')[0])
                 self.ok[pi][int(f[2])] = self.ok[pi].get(int(f[2]), 0) + 1
             if f[0] == 'discard':
@@ -148,6 +178,37 @@ class Run:
                 for li in range(len(ls)):
                     if (pi, li) != (pi0, li0) and w.lstate(pi, li) != before[pi][li]:
                         self.viol.append(('listener-disturbed', 'bytes from listener %d.%d changed listener %d.%d: %s -> %s' % (pi0, li0, pi, li, before[pi][li], w.lstate(pi, li))))
+
+    def group_call(self, op, t, outs, ev0):
+        """a remove_process_group / add_process_group call on a pool, judged in the property's terms"""
+        w = self.w
+        qi = int(t[1])
+        name = self.pools[qi][0]
+        res = next((o[4:] for o in outs if o.startswith('res:')), 'none')
+        was = self.live[qi]
+        alive = any(p.pid for p in w.listeners[qi]) if t[0] == 'remove' else False
+        emitted = [w.events.getEventNameByType(type(w.evobjs[e])) for e in range(ev0, w.next_ev)]
+        if t[0] == 'remove':
+            # refused exactly when one of its listeners has a live child; a refused call changes nothing
+            if (res == 'false') != alive or res not in ('true', 'false'):
+                self.viol.append(('pool-removal-answer-wrong', '%r answered %s; the pool has %s live listener' % (op, res, 'a' if alive else 'no')))
+            if res == 'true':
+                self.live[qi] = False
+                # the pool is gone, and what it had not delivered went with it: its account is closed
+                for evid, where in list(self.place[qi].items()):
+                    if where == 'buf' or isinstance(where, tuple):
+                        self.place[qi][evid] = 'gone-with-pool'
+                self.queue[qi] = []
+            want = ['PROCESS_GROUP_REMOVED'] if res == 'true' else []
+        else:
+            if (res == 'true') != (not was) or res not in ('true', 'false'):
+                self.viol.append(('pool-addition-answer-wrong', '%r answered %s; the pool was %sin the daemon' % (op, res, '' if was else 'not ')))
+            if res == 'true':
+                self.live[qi] = True
+            want = ['PROCESS_GROUP_ADDED'] if res == 'true' else []
+        if emitted != want:
+            self.viol.append(('group-call-emitted-wrong-events', '%r answered %s and emitted %r' % (op, res, emitted)))
+        self.ctx.count('group-call:%s:%s' % (t[0], res))
 
     def ledger(self, op, outs):
         """every accepted event of a pool is in exactly one place at every moment: it is handed to a listener only
@@ -228,6 +289,8 @@ class Run:
     def drain(self):
         w = self.w
         for pi, ls in enumerate(w.listeners):
+            if not w.active(pi):
+                continue
             for li in range(len(ls)):
                 if w.proc(pi, li).pid:
                     self.do('die %d %d - x' % (pi, li))
@@ -244,6 +307,8 @@ class Run:
             # PROCESS_STATE events of later drains are accounted for like any other event
         # a second pass: events emitted by the drain itself (listener deaths) may sit in earlier pools
         for pi, ls in enumerate(w.listeners):
+            if not w.active(pi):
+                continue
             for _ in range(60):
                 if w.lstate(pi, 0)[0] == 'ACKNOWLEDGED':
                     self.do('read %d 0 %s' % (pi, READY.hex()))
@@ -268,6 +333,8 @@ class Run:
             disc = {by_serial.get(s, ('serial', s)): n for s, n in self.discarded[pi].items()}
             for e in acc:
                 n = ok.get(e, 0) + disc.get(e, 0)
+                if n == 0 and self.place[pi].get(e) == 'gone-with-pool':
+                    continue        # undelivered when the operator removed the pool
                 if n == 0:
                     self.viol.append(('event-lost', 'pool %s: event %d (%s) was neither answered OK nor discarded with a log entry' % (name, e, type(w.evobjs[e]).__name__)))
                 elif n > 1:
@@ -338,8 +405,22 @@ def gen_case(rng):
     pools = []
     for i in range(npools):
         pools.append(('p%d' % i, rng.randrange(1, 6), rng.randrange(1, 4), gen_types(rng)))
+    if rng.random() < 0.35:
+        # pools that join the daemon later (supervisorctl add / update): a new name, or the name of a pool of the start-up
+        # configuration (which has to be removed first: `update` removes and re-adds a changed section)
+        for k in range(rng.choice([1, 1, 2])):
+            name = rng.choice(['q%d' % k, pools[rng.randrange(npools)][0]])
+            pools.append((name, rng.randrange(1, 6), rng.randrange(1, 3), gen_types(rng), 'absent'))
     handler = rng.choice(['strict', 'default'])
     return handler, pools, rng.choice(['unique', 'shared', 'shared'])
+
+
+def stop_all(pools, pi):
+    """the operator stops a pool: every listener gets its stop request and is reaped"""
+    ops = []
+    for li in range(pools[pi][2]):
+        ops += ['pstate %d %d stopping' % (pi, li), 'die %d %d - x' % (pi, li)]
+    return ops
 
 
 ANSWERS = [b'RESULT 2\nOK', b'RESULT 4\nFAIL', b'RESULT 1\nx', b'RESULT 0\n', b'RESULT 2\nOKREADY\n', b'RESULT 4\nFAILREADY\n']
@@ -354,8 +435,8 @@ def header_cut(data):
 def gen_script(rng, pools, n, world_state=None):
     ops = []
     pid = 200
-    for pi, (name, bs, nl, types) in enumerate(pools):
-        for li in range(nl):
+    for pi, p in enumerate(pools):
+        for li in range(p[2]):
             pid += 1
             ops.append('spawn %d %d %d' % (pi, li, pid))
             ops.append('pstate %d %d running' % (pi, li))
@@ -397,11 +478,94 @@ def gen_script(rng, pools, n, world_state=None):
                 # a stop request: the listener is reaped while STOPPING (possibly BUSY)
                 ops.append('pstate %d %d stopping' % (pi, li))
             ops.append('die %d %d %s x' % (pi, li, rng.choice(['-', '-', b'RESULT 2\nOK'.hex()])))
-        else:
+        elif r < 0.985 or len(pools) < 2:
             pid += 1
             ops.append('spawn %d %d %d' % (pi, li, pid))
             ops.append('pstate %d %d running' % (pi, li))
+        elif r < 0.995:
+            # a pool is removed while the others keep running: refused when a listener is alive, else after a stop
+            if rng.random() < 0.6:
+                ops += stop_all(pools, pi)
+            ops.append('remove %d' % pi)
+        else:
+            ops.append('add %d' % pi)
+            for lj in range(pools[pi][2]):
+                pid += 1
+                ops += ['spawn %d %d %d' % (pi, lj, pid), 'pstate %d %d running' % (pi, lj)]
     return ops
+
+
+CHURN_SETS = [[['TICK_5', 'PROCESS_GROUP'], ['TICK_5'], ['TICK', 'EVENT']], [['PROCESS_STATE', 'TICK_5'], ['PROCESS_STATE', 'TICK_60'], ['TICK_60']],
+              [['TICK'], ['TICK_5', 'TICK_60'], ['TICK_60', 'PROCESS_GROUP_REMOVED']], [['EVENT'], ['EVENT'], ['PROCESS_GROUP']],
+              [['TICK_5'], ['TICK_60'], ['REMOTE_COMMUNICATION', 'TICK_5']]]
+
+
+def gen_churn_case(rng):
+    """pools leave and join while the others keep running: 2-3 pools of the start-up configuration (subscriptions shared
+    with each other, with abstract types, disjoint), 1-2 pools added later (a new name, or the name of a pool that was
+    removed).  Removals are attempted with listeners alive (refused: nothing may change) and after the pool was stopped;
+    afterwards events of the types the removed pool shared with the others keep arriving and listeners of the remaining
+    pools keep rejecting (FAIL, garbage, death while BUSY)."""
+    npools = rng.choice([2, 2, 3])
+    sets = rng.choice(CHURN_SETS)
+    pools = [('p%d' % i, rng.randrange(2, 6), rng.randrange(1, 3), sets[i]) for i in range(npools)]
+    for k in range(rng.choice([0, 1, 1, 2])):
+        pools.append((rng.choice(['n%d' % k, 'p%d' % rng.randrange(npools)]), rng.randrange(2, 5), 1, rng.choice(sets + [gen_types(rng)]), 'absent'))
+    ops, pid = [], 800
+    for pi in range(npools):
+        for li in range(pools[pi][2]):
+            pid += 1
+            ops += ['spawn %d %d %d' % (pi, li, pid), 'pstate %d %d running' % (pi, li), 'read %d %d %s' % (pi, li, READY.hex())]
+    k = 0
+    emit = ['TICK_5', 'TICK_5', 'TICK_60', 'REMOTE_COMMUNICATION', 'PROCESS_STATE_RUNNING', 'PROCESS_LOG_STDOUT']
+
+    def traffic(n):
+        nonlocal k, pid
+        out = []
+        for _ in range(n):
+            for _ in range(rng.choice([1, 1, 2])):
+                k += 1
+                out.append('notify %s %s' % (rng.choice(emit), ('c%d' % k).encode().hex()))
+            for pi in range(len(pools)):
+                out.append('transition %d' % pi)
+            pi = rng.randrange(len(pools))
+            li = rng.randrange(pools[pi][2])
+            r = rng.random()
+            if r < 0.4:
+                out.append('read %d %d %s' % (pi, li, b'RESULT 4\nFAILREADY\n'.hex()))
+            elif r < 0.55:
+                out.append('read %d %d %s' % (pi, li, rng.choice([b'garbage\n', b'RESULT x\n']).hex()))
+            elif r < 0.7:
+                pid += 1
+                out += ['die %d %d - x' % (pi, li), 'spawn %d %d %d' % (pi, li, pid), 'pstate %d %d running' % (pi, li),
+                        'read %d %d %s' % (pi, li, READY.hex())]
+            else:
+                out.append('read %d %d %s' % (pi, li, b'RESULT 2\nOKREADY\n'.hex()))
+            for pi in range(len(pools)):
+                out.append('transition %d' % pi)
+        return out
+    ops += traffic(rng.randrange(1, 4))
+    for _ in range(rng.randrange(1, 4)):
+        r = rng.random()
+        pi = rng.randrange(len(pools))
+        if r < 0.3:
+            ops.append('remove %d' % pi)                          # refused if a listener is alive
+        elif r < 0.75:
+            ops += stop_all(pools, pi) + ['remove %d' % pi]
+        else:
+            later = [i for i, p in enumerate(pools) if len(p) > 4]
+            if later and rng.random() < 0.8:
+                pi = rng.choice(later)
+                if pools[pi][0] in [p[0] for p in pools[:npools]] and rng.random() < 0.7:
+                    # the pool of that name has to go first
+                    old = [p[0] for p in pools[:npools]].index(pools[pi][0])
+                    ops += stop_all(pools, old) + ['remove %d' % old]
+            ops.append('add %d' % pi)
+            for li in range(pools[pi][2]):
+                pid += 1
+                ops += ['spawn %d %d %d' % (pi, li, pid), 'pstate %d %d running' % (pi, li), 'read %d %d %s' % (pi, li, READY.hex())]
+        ops += traffic(rng.randrange(1, 4))
+    return rng.choice(['strict', 'default']), pools, ops, rng.choice(['unique', 'shared'])
 
 
 def gen_reject_case(rng):
@@ -579,6 +743,24 @@ def corpus():
         ('strict', [('a', 3, 1, ['TICK']), ('b', 3, 1, ['TICK'])], up2 + [tick, 'read 0 0 ' + READY.hex(), 'read 1 0 ' + READY.hex(),
                                                                       'transition 0', 'transition 1', 'read 1 0 ' + b'RESULT 2\nOK'.hex(),
                                                                       'read 0 0 ' + b'RESULT 4\n'.hex(), tick, 'read 0 0 ' + b'FAIL'.hex()]),
+        # seed C09-7: pool alpha is removed while beta keeps running; beta shares PROCESS_STATE with it.  Afterwards beta
+        # must still be offered a PROCESS_STATE event, and an event its listener answers FAIL to must come back and be sent again
+        ('strict', [('alpha', 3, 1, ['PROCESS_STATE', 'TICK_5']), ('beta', 3, 1, ['PROCESS_STATE', 'TICK_60'])],
+         ['spawn 1 0 12', 'pstate 1 0 running', 'read 1 0 ' + READY.hex(), 'transition 1', 'read 1 0 ' + b'RESULT 2\nOKREADY\n'.hex(),
+          'remove 0', 'notify PROCESS_STATE_RUNNING ' + b'processname:x groupname:x from_state:STARTING pid:7'.hex(),
+          'notify TICK_60 ' + b'when:1200'.hex(), 'notify TICK_60 ' + b'when:1260'.hex(), 'transition 1',
+          'read 1 0 ' + b'RESULT 4\nFAIL'.hex(), 'read 1 0 ' + READY.hex(), 'transition 1']),
+        # ... the same with a third pool that joins afterwards under the removed pool's name, and is removed again
+        ('strict', [('alpha', 2, 1, ['TICK', 'PROCESS_GROUP']), ('beta', 2, 2, ['TICK_5', 'EVENT']), ('alpha', 2, 1, ['TICK_5'], 'absent')],
+         up2 + ['read 0 0 ' + READY.hex(), 'read 1 0 ' + READY.hex(), tick, 'transition 0', 'transition 1', 'pstate 0 0 stopping', 'die 0 0 - x',
+                'remove 0', tick, 'transition 1', 'read 1 0 ' + b'RESULT 4\nFAILREADY\n'.hex(), 'transition 1', 'add 2', 'spawn 2 0 13',
+                'pstate 2 0 running', 'read 2 0 ' + READY.hex(), tick, 'transition 2', 'transition 1', 'remove 2', 'pstate 2 0 stopping',
+                'die 2 0 - x', 'remove 2', tick, 'transition 1']),
+        # seed C11-8's story seen from the pools: a removal is refused (the listener is alive); the pool stays in the daemon
+        # and must be offered every later event of its types, and get its rejected events back
+        ('strict', [('a', 3, 1, ['TICK']), ('b', 3, 1, ['TICK_5'])], up2 + ['read 0 0 ' + READY.hex(), 'read 1 0 ' + READY.hex(), 'remove 0', tick,
+                                                                      'transition 0', 'transition 1', 'read 0 0 ' + b'RESULT 4\nFAILREADY\n'.hex(),
+                                                                      'transition 0', 'remove 1', tick]),
         # death while BUSY
         ('strict', [('a', 3, 2, ['EVENT'])], ['spawn 0 0 11', 'pstate 0 0 running', 'spawn 0 1 12', 'pstate 0 1 running', tick,
                                             'read 0 0 ' + READY.hex(), 'transition 0', 'die 0 0 - x', 'read 0 1 ' + READY.hex(), 'transition 0']),
@@ -595,8 +777,7 @@ def finish_case(ctx, r, handler, pools, names, cases, impls, drain=True):
         r.drain()
     viol = r.monitors() if drain else r.viol
     r.fifo_monitor()
-    spec = ','.join('%s:%d:%d:%s' % (n, b, l, '+'.join(t)) for n, b, l, t in pools)
-    cases.append(('case pool handler=%s names=%s pools=%s' % (handler, names, spec), r.ops))
+    cases.append(('case pool handler=%s names=%s pools=%s' % (handler, names, pools_spec(pools)), r.ops))
     ctx.count('names:' + names)
     impls.append(r.lines)
     delivered = sum(sum(d.values()) for d in r.ok)
@@ -604,8 +785,8 @@ def finish_case(ctx, r, handler, pools, names, cases, impls, drain=True):
     ctx.count('events-delivered-ok', delivered)
     ctx.count('events-discarded', sum(sum(d.values()) for d in r.discarded))
     ctx.count('pools:%d' % len(pools))
-    for _, _, _, types in pools:
-        for t in types:
+    for p in pools:
+        for t in p[3]:
             ctx.count('subscribed:' + t)
     seen = set()
     for kind, what in r.viol:
@@ -628,6 +809,10 @@ def run(ctx):
     for _ in range(ctx.n(150, 1200)):
         handler, pools, script, names = gen_split_case(rng)
         run_case(ctx, handler, pools, script, cases, impls, names=names)
+    # pools removed (also refused) and added while the others keep running
+    for _ in range(ctx.n(150, 1500)):
+        handler, pools, script, names = gen_churn_case(rng)
+        run_case(ctx, handler, pools, script, cases, impls, names=names)
     for _ in range(ctx.n(300, 3000)):
         handler, pools, names = gen_case(rng)
         script = gen_script(rng, pools, rng.randrange(5, 60))
@@ -644,7 +829,7 @@ def run(ctx):
 def replay(ctx, data):
     inp = data['input']
     cases, impls = [], []
-    pools = [tuple(p[:3]) + (p[3],) for p in inp['pools']]
+    pools = [tuple(p[:3]) + (p[3],) + tuple(p[4:5]) for p in inp['pools']]
     ops = [' '.join(o.split()[:4]) + ' x' if o.startswith('die') else ' '.join(o.split()[:4]) if o.startswith('spawn') else o for o in inp['ops']]
     run_case(ctx, inp['handler'], pools, ops, cases, impls, drain=False, names=inp.get('names', 'unique'))
     ctx.correspond('pool', cases, impls)
